@@ -1,8 +1,8 @@
 import ExaModel.Lemmas.PackFits
 set_option linter.unusedSimpArgs false
 set_option linter.unusedVariables false
-/-! Content lemmas of M-Pack: what each section of an emitted message may hold (nothing else),
-    and that nothing in hand is lost while no exception is raised (completeness). -/
+/-! Content lemmas of M-Pack: what each section of an emitted message may hold (nothing else, and
+    nothing that cannot fit alone), and that nothing that fits is lost (completeness). -/
 namespace Exa.Pack
 
 /-- what the four NLRI-carrying places of a message hold -/
@@ -25,22 +25,12 @@ theorem attrs_dec (a : List Nlri) : decide (sz a ≠ 0) = true ∨ (sz a = 0 ∧
   · exact Or.inr ⟨h, rfl⟩
   · exact Or.inl (by simpa using h)
 
-theorem feedReach_unreach (attr : Nat) :
-    ∀ (rs : List Mp) (w a : List Nlri) (p : Option Mp), (feedReach attr rs w a p).2.unreach = none := by
-  intro rs
-  induction rs with
-  | nil => intro w a p; rfl
-  | cons r rs ih =>
-    intro w a p
-    cases p with
-    | none => unfold feedReach; exact ih w a (some r)
-    | some p => unfold feedReach; exact ih [] [] (some r)
-
 section sec
 variable {A4 W4 : Nlri → Prop} {R U : Mp → Prop}
 
+/-- `A4` may mention the size test of the loop: only NLRIs with `size ≤ ms` get in. -/
 theorem v4AnnLoop_sec (ms attr : Nat) :
-    ∀ (xs w a : List Nlri), (∀ x ∈ xs, A4 x) → (∀ x ∈ a, A4 x) → (∀ x ∈ w, W4 x) →
+    ∀ (xs w a : List Nlri), (∀ x ∈ xs, x.size ≤ ms → A4 x) → (∀ x ∈ a, A4 x) → (∀ x ∈ w, W4 x) →
       (∀ m ∈ (v4AnnLoop ms attr xs w a).msgs, SecOK A4 W4 R U m) ∧
       (∀ x ∈ (v4AnnLoop ms attr xs w a).a, A4 x) ∧ (∀ x ∈ (v4AnnLoop ms attr xs w a).w, W4 x) := by
   intro xs
@@ -48,16 +38,17 @@ theorem v4AnnLoop_sec (ms attr : Nat) :
   | nil => intro w a _ ha hw; simp [v4AnnLoop]; exact ⟨ha, hw⟩
   | cons x xs ih =>
     intro w a hx ha hw
-    have hx0 := hx x (by simp)
-    have hxs : ∀ y ∈ xs, A4 y := fun y hy => hx y (by simp [hy])
+    have hxs : ∀ y ∈ xs, y.size ≤ ms → A4 y := fun y hy => hx y (by simp [hy])
     unfold v4AnnLoop
     split
-    · refine ih w (a ++ [x]) hxs ?_ hw
-      intro y hy; rcases List.mem_append.1 hy with h | h
-      · exact ha y h
-      · simp at h; subst h; exact hx0
-    · split
-      · simp; exact ⟨ha, hw⟩
+    · exact ih w a hxs ha hw
+    · rename_i hfit
+      have hx0 : A4 x := hx x (by simp) (Nat.le_of_not_gt hfit)
+      split
+      · refine ih w (a ++ [x]) hxs ?_ hw
+        intro y hy; rcases List.mem_append.1 hy with h | h
+        · exact ha y h
+        · simp at h; subst h; exact hx0
       · have := ih [] [x] hxs (by intro y hy; simp at hy; subst hy; exact hx0) (by intro y hy; simp at hy)
         refine ⟨?_, this.2⟩
         intro m hm
@@ -67,7 +58,7 @@ theorem v4AnnLoop_sec (ms attr : Nat) :
         · exact this.1 m hm
 
 theorem v4WdLoop_sec (ms attr : Nat) :
-    ∀ (xs w a : List Nlri), (∀ x ∈ xs, W4 x) → (∀ x ∈ a, A4 x) → (∀ x ∈ w, W4 x) →
+    ∀ (xs w a : List Nlri), (∀ x ∈ xs, x.size ≤ ms → W4 x) → (∀ x ∈ a, A4 x) → (∀ x ∈ w, W4 x) →
       (∀ m ∈ (v4WdLoop ms attr xs w a).msgs, SecOK A4 W4 R U m) ∧
       (∀ x ∈ (v4WdLoop ms attr xs w a).a, A4 x) ∧ (∀ x ∈ (v4WdLoop ms attr xs w a).w, W4 x) := by
   intro xs
@@ -75,16 +66,17 @@ theorem v4WdLoop_sec (ms attr : Nat) :
   | nil => intro w a _ ha hw; simp [v4WdLoop]; exact ⟨ha, hw⟩
   | cons x xs ih =>
     intro w a hx ha hw
-    have hx0 := hx x (by simp)
-    have hxs : ∀ y ∈ xs, W4 y := fun y hy => hx y (by simp [hy])
+    have hxs : ∀ y ∈ xs, y.size ≤ ms → W4 y := fun y hy => hx y (by simp [hy])
     unfold v4WdLoop
     split
-    · refine ih (w ++ [x]) a hxs ha ?_
-      intro y hy; rcases List.mem_append.1 hy with h | h
-      · exact hw y h
-      · simp at h; subst h; exact hx0
-    · split
-      · simp; exact ⟨ha, hw⟩
+    · exact ih w a hxs ha hw
+    · rename_i hfit
+      have hx0 : W4 x := hx x (by simp) (Nat.le_of_not_gt hfit)
+      split
+      · refine ih (w ++ [x]) a hxs ha ?_
+        intro y hy; rcases List.mem_append.1 hy with h | h
+        · exact hw y h
+        · simp at h; subst h; exact hx0
       · have := ih [x] [] hxs (by intro y hy; simp at hy) (by intro y hy; simp at hy; subst hy; exact hx0)
         refine ⟨?_, this.2⟩
         intro m hm
@@ -94,139 +86,116 @@ theorem v4WdLoop_sec (ms attr : Nat) :
         · exact this.1 m hm
 
 theorem feedReach_sec (attr : Nat) :
-    ∀ (rs : List Mp) (w a : List Nlri) (p : Option Mp),
-      (∀ r ∈ rs, R r) → (∀ r, p = some r → R r) → (∀ x ∈ a, A4 x) → (∀ x ∈ w, W4 x) →
-      (∀ m ∈ (feedReach attr rs w a p).1, SecOK A4 W4 R U m) ∧
-      (∀ x ∈ (feedReach attr rs w a p).2.a, A4 x) ∧ (∀ x ∈ (feedReach attr rs w a p).2.w, W4 x) ∧
-      (∀ r, (feedReach attr rs w a p).2.reach = some r → R r) := by
+    ∀ (rs : List Mp) (p : Option Mp), (∀ r ∈ rs, R r) → (∀ r, p = some r → R r) →
+      (∀ m ∈ (feedReach attr rs p).1, SecOK A4 W4 R U m) ∧ (∀ r, (feedReach attr rs p).2 = some r → R r) := by
   intro rs
   induction rs with
-  | nil => intro w a p _ hp ha hw; simp [feedReach]; exact ⟨ha, hw, hp⟩
+  | nil => intro p _ hp; simp [feedReach]; exact hp
   | cons r rs ih =>
-    intro w a p hr hp ha hw
+    intro p hr hp
     have hrs : ∀ r' ∈ rs, R r' := fun r' h' => hr r' (by simp [h'])
     have hr0 := hr r (by simp)
     cases p with
     | none =>
       unfold feedReach
-      exact ih w a (some r) hrs (by intro r' h; cases h; exact hr0) ha hw
+      exact ih (some r) hrs (by intro r' h; cases h; exact hr0)
     | some p =>
       unfold feedReach
-      have := ih [] [] (some r) hrs (by intro r' h; cases h; exact hr0) (by intro y hy; simp at hy) (by intro y hy; simp at hy)
+      have := ih (some r) hrs (by intro r' h; cases h; exact hr0)
       refine ⟨?_, this.2⟩
       intro m hm
       simp only [List.mem_cons] at hm
       rcases hm with rfl | hm
-      · exact mkMsg_sec _ _ _ _ _ _ ha hw hp (by intro _ h; cases h) (Or.inl rfl)
+      · exact mkMsg_sec _ _ _ _ _ _ (by intro y hy; simp at hy) (by intro y hy; simp at hy) hp
+          (by intro _ h; cases h) (Or.inl rfl)
       · exact this.1 m hm
 
-theorem feedUnreach_sec (attr : Nat) :
-    ∀ (us : List Mp) (w a : List Nlri) (p u : Option Mp),
-      (∀ r ∈ us, U r) → (∀ r, p = some r → R r) → (∀ r, u = some r → U r) → (∀ x ∈ a, A4 x) → (∀ x ∈ w, W4 x) →
-      (∀ m ∈ (feedUnreach attr us w a p u).1, SecOK A4 W4 R U m) ∧
-      (∀ x ∈ (feedUnreach attr us w a p u).2.a, A4 x) ∧ (∀ x ∈ (feedUnreach attr us w a p u).2.w, W4 x) ∧
-      (∀ r, (feedUnreach attr us w a p u).2.reach = some r → R r) ∧
-      (∀ r, (feedUnreach attr us w a p u).2.unreach = some r → U r) := by
+theorem feedUnreach_sec (ms attr : Nat) :
+    ∀ (us : List Mp) (p u : Option Mp), (∀ r ∈ us, U r) → (∀ r, p = some r → R r) → (∀ r, u = some r → U r) →
+      (∀ m ∈ (feedUnreach ms attr us p u).1, SecOK A4 W4 R U m) ∧
+      (∀ r, (feedUnreach ms attr us p u).2.reach = some r → R r) ∧
+      (∀ r, (feedUnreach ms attr us p u).2.unreach = some r → U r) := by
   intro us
   induction us with
-  | nil => intro w a p u _ hp hu ha hw; simp [feedUnreach]; exact ⟨ha, hw, hp, hu⟩
+  | nil => intro p u _ hp hu; simp [feedUnreach]; exact ⟨hp, hu⟩
   | cons x us ih =>
-    intro w a p u hr hp hu ha hw
+    intro p u hr hp hu
     have hrs : ∀ r' ∈ us, U r' := fun r' h' => hr r' (by simp [h'])
     have hr0 := hr x (by simp)
-    cases u with
-    | none =>
-      unfold feedUnreach
-      exact ih w a p (some x) hrs hp (by intro r' h; cases h; exact hr0) ha hw
-    | some u =>
-      unfold feedUnreach
-      have := ih [] [] none (some x) hrs (by intro r' h; cases h) (by intro r' h; cases h; exact hr0)
-        (by intro y hy; simp at hy) (by intro y hy; simp at hy)
+    unfold feedUnreach
+    split
+    · have := ih none (some x) hrs (by intro r' h; cases h) (by intro r' h; cases h; exact hr0)
       refine ⟨?_, this.2⟩
       intro m hm
       simp only [List.mem_cons] at hm
       rcases hm with rfl | hm
-      · exact mkMsg_sec _ _ _ _ _ _ ha hw hp hu (Or.inl rfl)
+      · exact mkMsg_sec _ _ _ _ _ _ (by intro y hy; simp at hy) (by intro y hy; simp at hy) hp hu (Or.inl rfl)
       · exact this.1 m hm
+    · exact ih p (some x) hrs hp (by intro r' h; cases h; exact hr0)
 
-theorem famFinal_sec (attr : Nat) (s : MpSt) (ha : ∀ x ∈ s.a, A4 x) (hw : ∀ x ∈ s.w, W4 x)
+theorem famFinal_sec (attr : Nat) (s : MpSt)
     (hp : ∀ r, s.reach = some r → R r) (hu : ∀ r, s.unreach = some r → U r) :
     ∀ m ∈ famFinal attr s, SecOK A4 W4 R U m := by
   intro m hm
   unfold famFinal at hm
   split at hm
-  · simp at hm; subst hm; exact mkMsg_sec _ _ _ _ _ _ ha hw hp hu (Or.inl rfl)
+  · simp at hm; subst hm
+    exact mkMsg_sec _ _ _ _ _ _ (by intro y hy; simp at hy) (by intro y hy; simp at hy) hp hu (Or.inl rfl)
   · simp at hm
 
-theorem famStep_sec (inclW : Bool) (ms attr fam : Nat) (ra wa w a : List Nlri)
-    (hR : ∀ maxi, ∀ r ∈ (reachGen maxi fam (groupsOf ra)).1, R r)
-    (hU : inclW = true → ∀ maxi, ∀ u ∈ (unreachGen maxi fam wa).1, U u)
-    (ha : ∀ x ∈ a, A4 x) (hw : ∀ x ∈ w, W4 x) :
-    ∀ m ∈ (famStep inclW ms attr fam ra wa w a).1, SecOK A4 W4 R U m := by
+theorem famStep_sec (inclW : Bool) (ms attr fam : Nat) (ra wa : List Nlri)
+    (hR : ∀ r ∈ reachGen ms fam (groupsOf ra), R r)
+    (hU : inclW = true → ∀ u ∈ unreachGen ms fam wa, U u) :
+    ∀ m ∈ famStep inclW ms attr fam ra wa, SecOK A4 W4 R U m := by
   have f1 := feedReach_sec (A4 := A4) (W4 := W4) (R := R) (U := U) attr
-    (reachGen (ms - (sz w + sz a)) fam (groupsOf ra)).1 w a none (hR _) (by intro _ h; cases h) ha hw
+    (reachGen ms fam (groupsOf ra)) none hR (by intro _ h; cases h)
   intro m hm
   unfold famStep at hm
   simp only at hm
   split at hm
-  · exact f1.1 m hm
-  · split at hm
-    · rename_i hi
-      generalize feedReach attr (reachGen (ms - (sz w + sz a)) fam (groupsOf ra)).1 w a none = fr at f1 hm
-      obtain ⟨f1a, f1b, f1c, f1d⟩ := f1
-      have f2 := feedUnreach_sec (A4 := A4) (W4 := W4) (R := R) (U := U) attr
-        (unreachGen (ms - (sz fr.2.w + sz fr.2.a + owire fr.2.reach)) fam wa).1 fr.2.w fr.2.a fr.2.reach none
-        (hU hi _) f1d (by intro _ h; cases h) f1b f1c
-      split at hm
-      · simp only [List.mem_append] at hm
-        rcases hm with hm | hm
-        · exact f1a m hm
-        · exact f2.1 m hm
-      · simp only [List.mem_append] at hm
-        rcases hm with (hm | hm) | hm
-        · exact f1a m hm
-        · exact f2.1 m hm
-        · exact famFinal_sec attr _ f2.2.1 f2.2.2.1 f2.2.2.2.1 f2.2.2.2.2 m hm
-    · simp only [List.mem_append] at hm
-      rcases hm with hm | hm
-      · exact f1.1 m hm
-      · refine famFinal_sec attr _ f1.2.1 f1.2.2.1 f1.2.2.2 ?_ m hm
-        intro r hr
-        rw [feedReach_unreach] at hr; cases hr
+  · rename_i hi
+    have f2 := feedUnreach_sec (A4 := A4) (W4 := W4) (R := R) (U := U) ms attr
+      (unreachGen ms fam wa) (feedReach attr (reachGen ms fam (groupsOf ra)) none).2 none
+      (hU hi) f1.2 (by intro _ h; cases h)
+    simp only [List.mem_append] at hm
+    rcases hm with (hm | hm) | hm
+    · exact f1.1 m hm
+    · exact f2.1 m hm
+    · exact famFinal_sec attr _ f2.2.1 f2.2.2 m hm
+  · simp only [List.mem_append] at hm
+    rcases hm with hm | hm
+    · exact f1.1 m hm
+    · exact famFinal_sec attr _ f1.2 (by intro _ h; cases h) m hm
 
 theorem famLoop_sec (inclW : Bool) (ms attr : Nat) (ma mw : List Nlri)
-    (hR : ∀ f maxi, ∀ r ∈ (reachGen maxi f (groupsOf (ma.filter (fun x => x.fam = f)))).1, R r)
-    (hU : inclW = true → ∀ f maxi, ∀ u ∈ (unreachGen maxi f (mw.filter (fun x => x.fam = f))).1, U u) :
-    ∀ (fs : List Nat) (w a : List Nlri), (∀ x ∈ a, A4 x) → (∀ x ∈ w, W4 x) →
-      ∀ m ∈ (famLoop inclW ms attr ma mw fs w a).1, SecOK A4 W4 R U m := by
+    (hR : ∀ f, ∀ r ∈ reachGen ms f (groupsOf (ma.filter (fun x => x.fam = f))), R r)
+    (hU : inclW = true → ∀ f, ∀ u ∈ unreachGen ms f (mw.filter (fun x => x.fam = f)), U u) :
+    ∀ (fs : List Nat), ∀ m ∈ famLoop inclW ms attr ma mw fs, SecOK A4 W4 R U m := by
   intro fs
   induction fs with
-  | nil => intro w a _ _ m hm; simp [famLoop] at hm
+  | nil => intro m hm; simp [famLoop] at hm
   | cons f fs ih =>
-    intro w a ha hw m hm
-    have s1 := famStep_sec (A4 := A4) (W4 := W4) (R := R) (U := U) inclW ms attr f
-      (ma.filter (fun x => x.fam = f)) (mw.filter (fun x => x.fam = f)) w a (hR f) (fun hi => hU hi f) ha hw
+    intro m hm
     unfold famLoop at hm
-    simp only at hm
-    split at hm
-    · exact s1 m hm
-    · simp only [List.mem_append] at hm
-      rcases hm with hm | hm
-      · exact s1 m hm
-      · exact ih [] [] (by intro y hy; simp at hy) (by intro y hy; simp at hy) m hm
+    simp only [List.mem_append] at hm
+    rcases hm with hm | hm
+    · exact famStep_sec (A4 := A4) (W4 := W4) (R := R) (U := U) inclW ms attr f _ _ (hR f) (fun hi => hU hi f) m hm
+    · exact ih m hm
 
 end sec
 
 /-! ### what the generators yield -/
 
 /-- Every MP_REACH attribute is for the family asked, carries ONE next hop, and every NLRI in it
-    is a requested one with exactly that next hop. -/
+    is a requested one with exactly that next hop that fits alone in `maxi`. -/
 theorem reachGen_sec (maxi fam : Nat) (ra : List Nlri) :
-    ∀ r ∈ (reachGen maxi fam (groupsOf ra)).1,
-      r.fam = fam ∧ r.hdr = 5 + r.nhLen ∧ ∀ x ∈ r.items, x ∈ ra ∧ x.nh = r.nh ∧ x.nhLen = r.nhLen := by
+    ∀ r ∈ reachGen maxi fam (groupsOf ra),
+      r.fam = fam ∧ r.hdr = 5 + r.nhLen ∧
+      ∀ x ∈ r.items, x ∈ ra ∧ x.nh = r.nh ∧ x.nhLen = r.nhLen ∧ attrLen (5 + x.nhLen + x.size) ≤ maxi := by
   have key : ∀ gs : List ((Nat × Nat) × List Nlri), (∀ g ∈ gs, ∀ x ∈ g.2, x ∈ ra ∧ nhKey x = g.1) →
-      ∀ r ∈ (reachGen maxi fam gs).1,
-        r.fam = fam ∧ r.hdr = 5 + r.nhLen ∧ ∀ x ∈ r.items, x ∈ ra ∧ x.nh = r.nh ∧ x.nhLen = r.nhLen := by
+      ∀ r ∈ reachGen maxi fam gs,
+        r.fam = fam ∧ r.hdr = 5 + r.nhLen ∧
+        ∀ x ∈ r.items, x ∈ ra ∧ x.nh = r.nh ∧ x.nhLen = r.nhLen ∧ attrLen (5 + x.nhLen + x.size) ≤ maxi := by
     intro gs
     induction gs with
     | nil => intro _ r hr; simp [reachGen] at hr
@@ -235,29 +204,23 @@ theorem reachGen_sec (maxi fam : Nat) (ra : List Nlri) :
       obtain ⟨k, xs⟩ := g
       have hgs : ∀ g ∈ gs, ∀ x ∈ g.2, x ∈ ra ∧ nhKey x = g.1 := fun g' hg' => hg g' (by simp [hg'])
       have h0 := hg (k, xs) (by simp)
-      have one : ∀ it ∈ (splitGroup maxi (5 + k.2) xs []).1,
-          ∀ x ∈ it, x ∈ ra ∧ x.nh = k.1 ∧ x.nhLen = k.2 := by
-        intro it hit x hx
-        rcases splitGroup_sub maxi (5 + k.2) xs [] it hit x hx with h | h
+      unfold reachGen at hr
+      simp only [List.mem_append, List.mem_map] at hr
+      rcases hr with ⟨it, hit, rfl⟩ | hr
+      · refine ⟨rfl, rfl, ?_⟩
+        intro x hx
+        rcases splitGroup_sub maxi (5 + k.2) xs [] it hit x hx with h | ⟨h, hfit⟩
         · simp at h
         · have := h0 x h
-          refine ⟨this.1, ?_, ?_⟩
-          · have := congrArg Prod.fst this.2; simpa [nhKey] using this
-          · have := congrArg Prod.snd this.2; simpa [nhKey] using this
-      unfold reachGen at hr
-      simp only at hr
-      split at hr
-      · simp only [List.mem_map] at hr
-        obtain ⟨it, hit, rfl⟩ := hr
-        exact ⟨rfl, rfl, one it hit⟩
-      · simp only [List.mem_append, List.mem_map] at hr
-        rcases hr with ⟨it, hit, rfl⟩ | hr
-        · exact ⟨rfl, rfl, one it hit⟩
-        · exact ih hgs r hr
+          have e1 : x.nh = k.1 := by have := congrArg Prod.fst this.2; simpa [nhKey] using this
+          have e2 : x.nhLen = k.2 := by have := congrArg Prod.snd this.2; simpa [nhKey] using this
+          exact ⟨this.1, e1, e2, by rw [e2]; exact hfit⟩
+      · exact ih hgs r hr
   exact key (groupsOf ra) (fun g hg => groupsOf_mem hg)
 
 theorem unreachGen_sec (maxi fam : Nat) (wa : List Nlri) :
-    ∀ u ∈ (unreachGen maxi fam wa).1, u.fam = fam ∧ u.hdr = 3 ∧ ∀ x ∈ u.items, x ∈ wa := by
+    ∀ u ∈ unreachGen maxi fam wa,
+      u.fam = fam ∧ u.hdr = 3 ∧ ∀ x ∈ u.items, x ∈ wa ∧ attrLen (3 + x.size) ≤ maxi := by
   intro u hu
   unfold unreachGen at hu
   simp only [List.mem_map] at hu
@@ -268,98 +231,108 @@ theorem unreachGen_sec (maxi fam : Nat) (wa : List Nlri) :
   · simp at h
   · exact h
 
-/-! ### nothing in hand is lost -/
+/-! ### nothing that fits is lost -/
 
 theorem v4AnnLoop_cover (ms attr : Nat) :
-    ∀ (xs w a : List Nlri), (v4AnnLoop ms attr xs w a).bailed = false →
-      (∀ x, x ∈ xs ∨ x ∈ a → (∃ m ∈ (v4AnnLoop ms attr xs w a).msgs, x ∈ m.ann4) ∨ x ∈ (v4AnnLoop ms attr xs w a).a) ∧
+    ∀ (xs w a : List Nlri),
+      (∀ x, (x ∈ xs ∧ x.size ≤ ms) ∨ x ∈ a →
+        (∃ m ∈ (v4AnnLoop ms attr xs w a).msgs, x ∈ m.ann4) ∨ x ∈ (v4AnnLoop ms attr xs w a).a) ∧
       (∀ x ∈ w, (∃ m ∈ (v4AnnLoop ms attr xs w a).msgs, x ∈ m.wd4) ∨ x ∈ (v4AnnLoop ms attr xs w a).w) := by
   intro xs
   induction xs with
   | nil =>
-    intro w a _
+    intro w a
     simp [v4AnnLoop]
   | cons x xs ih =>
-    intro w a hb
-    unfold v4AnnLoop at hb ⊢
+    intro w a
+    unfold v4AnnLoop
     split
-    · rename_i hfit
-      simp only [hfit, if_true] at hb
-      have := ih w (a ++ [x]) hb
+    · rename_i hbig
+      have := ih w a
       refine ⟨?_, this.2⟩
       intro y hy
       apply this.1 y
-      rcases hy with hy | hy
+      rcases hy with ⟨hy, hs⟩ | hy
       · simp only [List.mem_cons] at hy
         rcases hy with rfl | hy
-        · exact Or.inr (by simp)
-        · exact Or.inl hy
-      · exact Or.inr (by simp [hy])
-    · rename_i hfit
-      simp only [hfit, if_false] at hb
-      split
-      · rename_i h0; simp [h0] at hb
-      · rename_i h0
-        simp only [h0, if_false] at hb
-        have := ih [] [x] hb
+        · omega
+        · exact Or.inl ⟨hy, hs⟩
+      · exact Or.inr hy
+    · split
+      · have := ih w (a ++ [x])
+        refine ⟨?_, this.2⟩
+        intro y hy
+        apply this.1 y
+        rcases hy with ⟨hy, hs⟩ | hy
+        · simp only [List.mem_cons] at hy
+          rcases hy with rfl | hy
+          · exact Or.inr (by simp)
+          · exact Or.inl ⟨hy, hs⟩
+        · exact Or.inr (by simp [hy])
+      · have := ih [] [x]
         constructor
         · intro y hy
-          rcases hy with hy | hy
-          · simp only [List.mem_cons] at hy
-            rcases hy with rfl | hy
-            · rcases this.1 y (Or.inr (by simp)) with ⟨m, hm, hym⟩ | h
-              · exact Or.inl ⟨m, by simp [hm], hym⟩
-              · exact Or.inr h
-            · rcases this.1 y (Or.inl hy) with ⟨m, hm, hym⟩ | h
-              · exact Or.inl ⟨m, by simp [hm], hym⟩
-              · exact Or.inr h
+          rcases hy with ⟨hy, hs⟩ | hy
+          · have h' : (y ∈ xs ∧ y.size ≤ ms) ∨ y ∈ [x] := by
+              simp only [List.mem_cons] at hy
+              rcases hy with rfl | hy
+              · exact Or.inr (by simp)
+              · exact Or.inl ⟨hy, hs⟩
+            rcases this.1 y h' with ⟨m, hm, hym⟩ | h
+            · exact Or.inl ⟨m, by simp [hm], hym⟩
+            · exact Or.inr h
           · exact Or.inl ⟨_, List.mem_cons_self, by simpa using hy⟩
         · intro y hy
           exact Or.inl ⟨_, List.mem_cons_self, by simpa using hy⟩
 
 theorem v4WdLoop_cover (ms attr : Nat) :
-    ∀ (xs w a : List Nlri), (v4WdLoop ms attr xs w a).bailed = false →
-      (∀ x, x ∈ xs ∨ x ∈ w → (∃ m ∈ (v4WdLoop ms attr xs w a).msgs, x ∈ m.wd4) ∨ x ∈ (v4WdLoop ms attr xs w a).w) ∧
+    ∀ (xs w a : List Nlri),
+      (∀ x, (x ∈ xs ∧ x.size ≤ ms) ∨ x ∈ w →
+        (∃ m ∈ (v4WdLoop ms attr xs w a).msgs, x ∈ m.wd4) ∨ x ∈ (v4WdLoop ms attr xs w a).w) ∧
       (∀ x ∈ a, (∃ m ∈ (v4WdLoop ms attr xs w a).msgs, x ∈ m.ann4) ∨ x ∈ (v4WdLoop ms attr xs w a).a) := by
   intro xs
   induction xs with
   | nil =>
-    intro w a _
+    intro w a
     simp [v4WdLoop]
   | cons x xs ih =>
-    intro w a hb
-    unfold v4WdLoop at hb ⊢
+    intro w a
+    unfold v4WdLoop
     split
-    · rename_i hfit
-      simp only [hfit, if_true] at hb
-      have := ih (w ++ [x]) a hb
+    · rename_i hbig
+      have := ih w a
       refine ⟨?_, this.2⟩
       intro y hy
       apply this.1 y
-      rcases hy with hy | hy
+      rcases hy with ⟨hy, hs⟩ | hy
       · simp only [List.mem_cons] at hy
         rcases hy with rfl | hy
-        · exact Or.inr (by simp)
-        · exact Or.inl hy
-      · exact Or.inr (by simp [hy])
-    · rename_i hfit
-      simp only [hfit, if_false] at hb
-      split
-      · rename_i h0; simp [h0] at hb
-      · rename_i h0
-        simp only [h0, if_false] at hb
-        have := ih [x] [] hb
+        · omega
+        · exact Or.inl ⟨hy, hs⟩
+      · exact Or.inr hy
+    · split
+      · have := ih (w ++ [x]) a
+        refine ⟨?_, this.2⟩
+        intro y hy
+        apply this.1 y
+        rcases hy with ⟨hy, hs⟩ | hy
+        · simp only [List.mem_cons] at hy
+          rcases hy with rfl | hy
+          · exact Or.inr (by simp)
+          · exact Or.inl ⟨hy, hs⟩
+        · exact Or.inr (by simp [hy])
+      · have := ih [x] []
         constructor
         · intro y hy
-          rcases hy with hy | hy
-          · simp only [List.mem_cons] at hy
-            rcases hy with rfl | hy
-            · rcases this.1 y (Or.inr (by simp)) with ⟨m, hm, hym⟩ | h
-              · exact Or.inl ⟨m, by simp [hm], hym⟩
-              · exact Or.inr h
-            · rcases this.1 y (Or.inl hy) with ⟨m, hm, hym⟩ | h
-              · exact Or.inl ⟨m, by simp [hm], hym⟩
-              · exact Or.inr h
+          rcases hy with ⟨hy, hs⟩ | hy
+          · have h' : (y ∈ xs ∧ y.size ≤ ms) ∨ y ∈ [x] := by
+              simp only [List.mem_cons] at hy
+              rcases hy with rfl | hy
+              · exact Or.inr (by simp)
+              · exact Or.inl ⟨hy, hs⟩
+            rcases this.1 y h' with ⟨m, hm, hym⟩ | h
+            · exact Or.inl ⟨m, by simp [hm], hym⟩
+            · exact Or.inr h
           · exact Or.inl ⟨_, List.mem_cons_self, by simpa using hy⟩
         · intro y hy
           exact Or.inl ⟨_, List.mem_cons_self, by simpa using hy⟩
@@ -377,139 +350,114 @@ theorem v4Final_cover (attr : Nat) (w a : List Nlri) (hw : Pos w) (ha : Pos a) :
     unfold v4Final; simp [this]; exact hx
 
 theorem reachGen_cover (maxi fam : Nat) :
-    ∀ gs : List ((Nat × Nat) × List Nlri), (reachGen maxi fam gs).2 = false → (∀ g ∈ gs, Pos g.2) →
-      ∀ g ∈ gs, ∀ x ∈ g.2, ∃ r ∈ (reachGen maxi fam gs).1, x ∈ r.items := by
+    ∀ gs : List ((Nat × Nat) × List Nlri), (∀ g ∈ gs, Pos g.2) →
+      ∀ g ∈ gs, ∀ x ∈ g.2, attrLen (5 + g.1.2 + x.size) ≤ maxi → ∃ r ∈ reachGen maxi fam gs, x ∈ r.items := by
   intro gs
   induction gs with
-  | nil => intro _ _ g hg; simp at hg
+  | nil => intro _ g hg; simp at hg
   | cons g0 gs ih =>
-    intro he hpos g hg x hx
+    intro hpos g hg x hx hfit
     obtain ⟨k, xs⟩ := g0
-    unfold reachGen at he ⊢
-    simp only at he ⊢
-    split
-    · rename_i h2; simp [h2] at he
-    · rename_i h2
-      simp only [h2] at he
-      have h2' : (splitGroup maxi (5 + k.2) xs []).2 = false := by simpa using h2
-      simp only [List.mem_cons] at hg
-      rcases hg with rfl | hg
-      · have hf := splitGroup_flatten maxi (5 + k.2) xs [] (hpos (k, xs) (by simp)) (by intro y hy; simp at hy) h2'
-        have : x ∈ (splitGroup maxi (5 + k.2) xs []).1.flatten := by rw [hf]; simpa using hx
-        obtain ⟨it, hit, hxit⟩ := List.mem_flatten.1 this
-        exact ⟨_, List.mem_append_left _ (List.mem_map.2 ⟨it, hit, rfl⟩), hxit⟩
-      · obtain ⟨r, hr, hxr⟩ := ih he (fun g' hg' => hpos g' (by simp [hg'])) g hg x hx
-        exact ⟨r, List.mem_append_right _ hr, hxr⟩
+    unfold reachGen
+    simp only [List.mem_cons] at hg
+    rcases hg with rfl | hg
+    · have hf := splitGroup_flatten maxi (5 + k.2) xs [] (hpos (k, xs) (by simp)) (by intro y hy; simp at hy)
+      have : x ∈ (splitGroup maxi (5 + k.2) xs []).flatten := by
+        rw [hf]; simp [List.mem_filter]; exact ⟨hx, hfit⟩
+      obtain ⟨it, hit, hxit⟩ := List.mem_flatten.1 this
+      exact ⟨_, List.mem_append_left _ (List.mem_map.2 ⟨it, hit, rfl⟩), hxit⟩
+    · obtain ⟨r, hr, hxr⟩ := ih (fun g' hg' => hpos g' (by simp [hg'])) g hg x hx hfit
+      exact ⟨r, List.mem_append_right _ hr, hxr⟩
 
-theorem unreachGen_cover (maxi fam : Nat) (xs : List Nlri) (he : (unreachGen maxi fam xs).2 = false) (hp : Pos xs) :
-    ∀ x ∈ xs, ∃ u ∈ (unreachGen maxi fam xs).1, x ∈ u.items := by
-  intro x hx
-  unfold unreachGen at he ⊢
-  simp only at he ⊢
-  have hf := splitGroup_flatten maxi 3 xs [] hp (by intro y hy; simp at hy) he
-  have : x ∈ (splitGroup maxi 3 xs []).1.flatten := by rw [hf]; simpa using hx
+theorem unreachGen_cover (maxi fam : Nat) (xs : List Nlri) (hp : Pos xs) :
+    ∀ x ∈ xs, attrLen (3 + x.size) ≤ maxi → ∃ u ∈ unreachGen maxi fam xs, x ∈ u.items := by
+  intro x hx hfit
+  unfold unreachGen
+  have hf := splitGroup_flatten maxi 3 xs [] hp (by intro y hy; simp at hy)
+  have : x ∈ (splitGroup maxi 3 xs []).flatten := by
+    rw [hf]; simp [List.mem_filter]; exact ⟨hx, hfit⟩
   obtain ⟨it, hit, hxit⟩ := List.mem_flatten.1 this
   exact ⟨_, List.mem_map.2 ⟨it, hit, rfl⟩, hxit⟩
 
 theorem feedReach_cover (attr : Nat) :
-    ∀ (rs : List Mp) (w a : List Nlri) (p : Option Mp),
-      (∀ r, r ∈ rs ∨ p = some r →
-        (∃ m ∈ (feedReach attr rs w a p).1, m.reach = some r) ∨ (feedReach attr rs w a p).2.reach = some r) ∧
-      (∀ x ∈ a, (∃ m ∈ (feedReach attr rs w a p).1, x ∈ m.ann4) ∨ x ∈ (feedReach attr rs w a p).2.a) ∧
-      (∀ x ∈ w, (∃ m ∈ (feedReach attr rs w a p).1, x ∈ m.wd4) ∨ x ∈ (feedReach attr rs w a p).2.w) := by
+    ∀ (rs : List Mp) (p : Option Mp), ∀ r, r ∈ rs ∨ p = some r →
+      (∃ m ∈ (feedReach attr rs p).1, m.reach = some r) ∨ (feedReach attr rs p).2 = some r := by
   intro rs
   induction rs with
-  | nil =>
-    intro w a p
-    refine ⟨?_, ?_, ?_⟩
-    · intro r hr; simp at hr; simp [feedReach, hr]
-    · intro x hx; simp [feedReach, hx]
-    · intro x hx; simp [feedReach, hx]
-  | cons r rs ih =>
-    intro w a p
+  | nil => intro p r hr; simp at hr; simp [feedReach, hr]
+  | cons r0 rs ih =>
+    intro p r hr
     cases p with
     | none =>
       unfold feedReach
-      have := ih w a (some r)
-      refine ⟨?_, this.2⟩
-      intro r' hr'
-      apply this.1 r'
-      rcases hr' with hr' | hr'
-      · simp only [List.mem_cons] at hr'
-        rcases hr' with rfl | hr'
+      apply ih (some r0) r
+      rcases hr with hr | hr
+      · simp only [List.mem_cons] at hr
+        rcases hr with rfl | hr
         · exact Or.inr rfl
-        · exact Or.inl hr'
-      · cases hr'
+        · exact Or.inl hr
+      · cases hr
     | some p =>
       unfold feedReach
-      have := ih [] [] (some r)
-      refine ⟨?_, ?_, ?_⟩
-      · intro r' hr'
-        rcases hr' with hr' | hr'
-        · have h' : r' ∈ rs ∨ some r = some r' := by
-            simp only [List.mem_cons] at hr'
-            rcases hr' with rfl | hr'
-            · exact Or.inr rfl
-            · exact Or.inl hr'
-          rcases this.1 r' h' with ⟨m, hm, hmr⟩ | h
-          · exact Or.inl ⟨m, by simp [hm], hmr⟩
-          · exact Or.inr h
-        · cases hr'
-          exact Or.inl ⟨_, List.mem_cons_self, rfl⟩
-      · intro x hx; exact Or.inl ⟨_, List.mem_cons_self, by simpa using hx⟩
-      · intro x hx; exact Or.inl ⟨_, List.mem_cons_self, by simpa using hx⟩
+      rcases hr with hr | hr
+      · have h' : r ∈ rs ∨ some r0 = some r := by
+          simp only [List.mem_cons] at hr
+          rcases hr with rfl | hr
+          · exact Or.inr rfl
+          · exact Or.inl hr
+        rcases ih (some r0) r h' with ⟨m, hm, hmr⟩ | h
+        · exact Or.inl ⟨m, by simp [hm], hmr⟩
+        · exact Or.inr h
+      · cases hr
+        exact Or.inl ⟨_, List.mem_cons_self, rfl⟩
 
-theorem feedUnreach_cover (attr : Nat) :
-    ∀ (us : List Mp) (w a : List Nlri) (p u : Option Mp),
+theorem feedUnreach_cover (ms attr : Nat) :
+    ∀ (us : List Mp) (p u : Option Mp),
       (∀ r, r ∈ us ∨ u = some r →
-        (∃ m ∈ (feedUnreach attr us w a p u).1, m.unreach = some r) ∨ (feedUnreach attr us w a p u).2.unreach = some r) ∧
+        (∃ m ∈ (feedUnreach ms attr us p u).1, m.unreach = some r) ∨ (feedUnreach ms attr us p u).2.unreach = some r) ∧
       (∀ r, p = some r →
-        (∃ m ∈ (feedUnreach attr us w a p u).1, m.reach = some r) ∨ (feedUnreach attr us w a p u).2.reach = some r) ∧
-      (∀ x ∈ a, (∃ m ∈ (feedUnreach attr us w a p u).1, x ∈ m.ann4) ∨ x ∈ (feedUnreach attr us w a p u).2.a) ∧
-      (∀ x ∈ w, (∃ m ∈ (feedUnreach attr us w a p u).1, x ∈ m.wd4) ∨ x ∈ (feedUnreach attr us w a p u).2.w) := by
+        (∃ m ∈ (feedUnreach ms attr us p u).1, m.reach = some r) ∨ (feedUnreach ms attr us p u).2.reach = some r) := by
   intro us
   induction us with
   | nil =>
-    intro w a p u
-    refine ⟨?_, ?_, ?_, ?_⟩
+    intro p u
+    constructor
     · intro r hr; simp at hr; simp [feedUnreach, hr]
     · intro r hr; simp [feedUnreach, hr]
-    · intro x hx; simp [feedUnreach, hx]
-    · intro x hx; simp [feedUnreach, hx]
   | cons x us ih =>
-    intro w a p u
-    cases u with
-    | none =>
-      unfold feedUnreach
-      have := ih w a p (some x)
-      refine ⟨?_, this.2⟩
-      intro r' hr'
-      apply this.1 r'
-      rcases hr' with hr' | hr'
-      · simp only [List.mem_cons] at hr'
-        rcases hr' with rfl | hr'
-        · exact Or.inr rfl
-        · exact Or.inl hr'
-      · cases hr'
-    | some u =>
-      unfold feedUnreach
-      have := ih [] [] none (some x)
-      refine ⟨?_, ?_, ?_, ?_⟩
-      · intro r' hr'
-        rcases hr' with hr' | hr'
-        · have h' : r' ∈ us ∨ some x = some r' := by
-            simp only [List.mem_cons] at hr'
-            rcases hr' with rfl | hr'
+    intro p u
+    unfold feedUnreach
+    split
+    · have := ih none (some x)
+      constructor
+      · intro r hr
+        rcases hr with hr | hr
+        · have h' : r ∈ us ∨ some x = some r := by
+            simp only [List.mem_cons] at hr
+            rcases hr with rfl | hr
             · exact Or.inr rfl
-            · exact Or.inl hr'
-          rcases this.1 r' h' with ⟨m, hm, hmr⟩ | h
+            · exact Or.inl hr
+          rcases this.1 r h' with ⟨m, hm, hmr⟩ | h
           · exact Or.inl ⟨m, by simp [hm], hmr⟩
           · exact Or.inr h
-        · cases hr'
-          exact Or.inl ⟨_, List.mem_cons_self, rfl⟩
+        · exact Or.inl ⟨_, List.mem_cons_self, by simpa using hr⟩
       · intro r hr; exact Or.inl ⟨_, List.mem_cons_self, by simpa using hr⟩
-      · intro y hy; exact Or.inl ⟨_, List.mem_cons_self, by simpa using hy⟩
-      · intro y hy; exact Or.inl ⟨_, List.mem_cons_self, by simpa using hy⟩
+    · rename_i hc
+      have hu : u = none := by
+        cases u with
+        | none => rfl
+        | some v => exact absurd (Or.inl rfl) hc
+      subst hu
+      have := ih p (some x)
+      refine ⟨?_, this.2⟩
+      intro r hr
+      apply this.1 r
+      rcases hr with hr | hr
+      · simp only [List.mem_cons] at hr
+        rcases hr with rfl | hr
+        · exact Or.inr rfl
+        · exact Or.inl hr
+      · cases hr
 
 theorem famFinal_cover (attr : Nat) (s : MpSt) :
     (∀ r, s.reach = some r → ∃ m ∈ famFinal attr s, m.reach = some r) ∧
@@ -530,99 +478,75 @@ theorem InReach_mono {l l' : List Msg} (h : ∀ m ∈ l, m ∈ l') {x : Nlri} : 
 theorem InUnreach_mono {l l' : List Msg} (h : ∀ m ∈ l, m ∈ l') {x : Nlri} : InUnreach l x → InUnreach l' x := by
   rintro ⟨m, hm, r, hr, hx⟩; exact ⟨m, h m hm, r, hr, hx⟩
 
-theorem famStep_cover (inclW : Bool) (ms attr fam : Nat) (ra wa w a : List Nlri)
-    (he : (famStep inclW ms attr fam ra wa w a).2 = false) (hra : Pos ra) (hwa : Pos wa) :
-    (∀ x ∈ ra, InReach (famStep inclW ms attr fam ra wa w a).1 x) ∧
-    (inclW = true → ∀ x ∈ wa, InUnreach (famStep inclW ms attr fam ra wa w a).1 x) := by
-  unfold famStep at he ⊢
-  simp only at he ⊢
-  generalize hrg : reachGen (ms - (sz w + sz a)) fam (groupsOf ra) = rg at he ⊢
-  have c1 := feedReach_cover attr rg.1 w a none
-  generalize hfr : feedReach attr rg.1 w a none = fr at he c1 ⊢
-  by_cases h2 : rg.2 = true
-  · simp [h2] at he
-  · have h2' : rg.2 = false := by simpa using h2
-    simp only [h2', Bool.false_eq_true, if_false] at he ⊢
-    -- every requested announce is in some attribute the generator yielded
-    have inR : ∀ x ∈ ra, ∃ r ∈ rg.1, x ∈ r.items := by
-      intro x hx
-      obtain ⟨g, hg, hxg, _⟩ := groupsOf_cover hx
-      have hp : ∀ g ∈ groupsOf ra, Pos g.2 := fun g hg y hy => hra y (groupsOf_mem hg y hy).1
-      have := reachGen_cover (ms - (sz w + sz a)) fam (groupsOf ra) (by rw [hrg]; exact h2') hp g hg x hxg
-      rw [hrg] at this; exact this
-    by_cases hi : inclW = true
-    · simp only [hi, if_true] at he ⊢
-      generalize hug : unreachGen (ms - (sz fr.2.w + sz fr.2.a + owire fr.2.reach)) fam wa = ug at he ⊢
-      have c2 := feedUnreach_cover attr ug.1 fr.2.w fr.2.a fr.2.reach none
-      generalize hfu : feedUnreach attr ug.1 fr.2.w fr.2.a fr.2.reach none = fu at he c2 ⊢
-      by_cases h3 : ug.2 = true
-      · simp [h3] at he
-      · have h3' : ug.2 = false := by simpa using h3
-        simp only [h3', Bool.false_eq_true, if_false]
-        have cf := famFinal_cover attr fu.2
-        constructor
-        · intro x hx
-          obtain ⟨r, hr, hxr⟩ := inR x hx
-          rcases c1.1 r (Or.inl hr) with ⟨m, hm, hmr⟩ | hst
-          · exact ⟨m, by simp [hm], r, hmr, hxr⟩
-          · rcases c2.2.1 r hst with ⟨m, hm, hmr⟩ | hst2
-            · exact ⟨m, by simp [hm], r, hmr, hxr⟩
-            · obtain ⟨m, hm, hmr⟩ := cf.1 r hst2
-              exact ⟨m, by simp [hm], r, hmr, hxr⟩
-        · intro _ x hx
-          have := unreachGen_cover (ms - (sz fr.2.w + sz fr.2.a + owire fr.2.reach)) fam wa (by rw [hug]; exact h3') hwa x hx
-          rw [hug] at this
-          obtain ⟨u, hu, hxu⟩ := this
-          rcases c2.1 u (Or.inl hu) with ⟨m, hm, hmu⟩ | hst
-          · exact ⟨m, by simp [hm], u, hmu, hxu⟩
-          · obtain ⟨m, hm, hmu⟩ := cf.2 u hst
-            exact ⟨m, by simp [hm], u, hmu, hxu⟩
-    · have hi' : inclW = false := by simpa using hi
-      simp only [hi', Bool.false_eq_true, if_false]
-      have cf := famFinal_cover attr fr.2
-      constructor
-      · intro x hx
-        obtain ⟨r, hr, hxr⟩ := inR x hx
-        rcases c1.1 r (Or.inl hr) with ⟨m, hm, hmr⟩ | hst
+theorem famStep_cover (inclW : Bool) (ms attr fam : Nat) (ra wa : List Nlri) (hra : Pos ra) (hwa : Pos wa) :
+    (∀ x ∈ ra, attrLen (5 + x.nhLen + x.size) ≤ ms → InReach (famStep inclW ms attr fam ra wa) x) ∧
+    (inclW = true → ∀ x ∈ wa, attrLen (3 + x.size) ≤ ms → InUnreach (famStep inclW ms attr fam ra wa) x) := by
+  have inR : ∀ x ∈ ra, attrLen (5 + x.nhLen + x.size) ≤ ms → ∃ r ∈ reachGen ms fam (groupsOf ra), x ∈ r.items := by
+    intro x hx hfit
+    obtain ⟨g, hg, hxg, hk⟩ := groupsOf_cover hx
+    have hp : ∀ g ∈ groupsOf ra, Pos g.2 := fun g hg y hy => hra y (groupsOf_mem hg y hy).1
+    exact reachGen_cover ms fam (groupsOf ra) hp g hg x hxg (by rw [hk]; simpa [nhKey] using hfit)
+  have c1 := feedReach_cover attr (reachGen ms fam (groupsOf ra)) none
+  unfold famStep
+  simp only
+  split
+  · rename_i hi
+    have c2 := feedUnreach_cover ms attr (unreachGen ms fam wa) (feedReach attr (reachGen ms fam (groupsOf ra)) none).2 none
+    have cf := famFinal_cover attr
+      (feedUnreach ms attr (unreachGen ms fam wa) (feedReach attr (reachGen ms fam (groupsOf ra)) none).2 none).2
+    constructor
+    · intro x hx hfit
+      obtain ⟨r, hr, hxr⟩ := inR x hx hfit
+      rcases c1 r (Or.inl hr) with ⟨m, hm, hmr⟩ | hst
+      · exact ⟨m, by simp [hm], r, hmr, hxr⟩
+      · rcases c2.2 r hst with ⟨m, hm, hmr⟩ | hst2
         · exact ⟨m, by simp [hm], r, hmr, hxr⟩
-        · obtain ⟨m, hm, hmr⟩ := cf.1 r hst
+        · obtain ⟨m, hm, hmr⟩ := cf.1 r hst2
           exact ⟨m, by simp [hm], r, hmr, hxr⟩
-      · intro h; cases h
+    · intro _ x hx hfit
+      obtain ⟨u, hu, hxu⟩ := unreachGen_cover ms fam wa hwa x hx hfit
+      rcases c2.1 u (Or.inl hu) with ⟨m, hm, hmu⟩ | hst
+      · exact ⟨m, by simp [hm], u, hmu, hxu⟩
+      · obtain ⟨m, hm, hmu⟩ := cf.2 u hst
+        exact ⟨m, by simp [hm], u, hmu, hxu⟩
+  · rename_i hi
+    constructor
+    · intro x hx hfit
+      obtain ⟨r, hr, hxr⟩ := inR x hx hfit
+      rcases c1 r (Or.inl hr) with ⟨m, hm, hmr⟩ | hst
+      · exact ⟨m, by simp [hm], r, hmr, hxr⟩
+      · obtain ⟨m, hm, hmr⟩ := (famFinal_cover attr
+          { reach := (feedReach attr (reachGen ms fam (groupsOf ra)) none).2, unreach := none }).1 r hst
+        exact ⟨m, by simp [hm], r, hmr, hxr⟩
+    · intro h; exact absurd h hi
 
 theorem famLoop_cover (inclW : Bool) (ms attr : Nat) (ma mw : List Nlri) (hma : Pos ma) (hmw : Pos mw) :
-    ∀ (fs : List Nat) (w a : List Nlri), (famLoop inclW ms attr ma mw fs w a).2 = false →
-      ∀ f ∈ fs,
-        (∀ x ∈ ma, x.fam = f → InReach (famLoop inclW ms attr ma mw fs w a).1 x) ∧
-        (inclW = true → ∀ x ∈ mw, x.fam = f → InUnreach (famLoop inclW ms attr ma mw fs w a).1 x) := by
+    ∀ (fs : List Nat), ∀ f ∈ fs,
+      (∀ x ∈ ma, x.fam = f → attrLen (5 + x.nhLen + x.size) ≤ ms → InReach (famLoop inclW ms attr ma mw fs) x) ∧
+      (inclW = true → ∀ x ∈ mw, x.fam = f → attrLen (3 + x.size) ≤ ms → InUnreach (famLoop inclW ms attr ma mw fs) x) := by
   intro fs
   induction fs with
-  | nil => intro w a _ f hf; simp at hf
+  | nil => intro f hf; simp at hf
   | cons f0 fs ih =>
-    intro w a he f hf
-    unfold famLoop at he ⊢
-    simp only at he ⊢
-    generalize hst : famStep inclW ms attr f0 (ma.filter (fun x => x.fam = f0)) (mw.filter (fun x => x.fam = f0)) w a = st at he ⊢
-    by_cases h2 : st.2 = true
-    · simp [h2] at he
-    · have h2' : st.2 = false := by simpa using h2
-      simp only [h2', Bool.false_eq_true, if_false] at he ⊢
-      have c := famStep_cover inclW ms attr f0 (ma.filter (fun x => x.fam = f0)) (mw.filter (fun x => x.fam = f0)) w a
-        (by rw [hst]; exact h2')
-        (fun y hy => hma y (List.mem_filter.1 hy).1) (fun y hy => hmw y (List.mem_filter.1 hy).1)
-      rw [hst] at c
-      simp only [List.mem_cons] at hf
-      rcases hf with rfl | hf
-      · constructor
-        · intro x hx hxf
-          exact InReach_mono (fun m hm => List.mem_append_left _ hm) (c.1 x (List.mem_filter.2 ⟨hx, by simpa using hxf⟩))
-        · intro hi x hx hxf
-          exact InUnreach_mono (fun m hm => List.mem_append_left _ hm) (c.2 hi x (List.mem_filter.2 ⟨hx, by simpa using hxf⟩))
-      · have := ih [] [] he f hf
-        constructor
-        · intro x hx hxf
-          exact InReach_mono (fun m hm => List.mem_append_right _ hm) (this.1 x hx hxf)
-        · intro hi x hx hxf
-          exact InUnreach_mono (fun m hm => List.mem_append_right _ hm) (this.2 hi x hx hxf)
+    intro f hf
+    unfold famLoop
+    have c := famStep_cover inclW ms attr f0 (ma.filter (fun x => x.fam = f0)) (mw.filter (fun x => x.fam = f0))
+      (fun y hy => hma y (List.mem_filter.1 hy).1) (fun y hy => hmw y (List.mem_filter.1 hy).1)
+    simp only [List.mem_cons] at hf
+    rcases hf with rfl | hf
+    · constructor
+      · intro x hx hxf hfit
+        exact InReach_mono (fun m hm => List.mem_append_left _ hm)
+          (c.1 x (List.mem_filter.2 ⟨hx, by simpa using hxf⟩) hfit)
+      · intro hi x hx hxf hfit
+        exact InUnreach_mono (fun m hm => List.mem_append_left _ hm)
+          (c.2 hi x (List.mem_filter.2 ⟨hx, by simpa using hxf⟩) hfit)
+    · have := ih f hf
+      constructor
+      · intro x hx hxf hfit
+        exact InReach_mono (fun m hm => List.mem_append_right _ hm) (this.1 x hx hxf hfit)
+      · intro hi x hx hxf hfit
+        exact InUnreach_mono (fun m hm => List.mem_append_right _ hm) (this.2 hi x hx hxf hfit)
 
 theorem cut_all : ∀ (l : List Msg), (cut l).2 = false → (cut l).1 = l := by
   intro l
@@ -636,5 +560,17 @@ theorem cut_all : ∀ (l : List Msg), (cut l).2 = false → (cut l).1 = l := by
     · rename_i hb
       simp only [hb, if_false] at h
       simp [ih h]
+
+theorem cut_ok : ∀ (l : List Msg), (∀ m ∈ l, m.len ≤ 65535) → (cut l).2 = false := by
+  intro l
+  induction l with
+  | nil => intro _; rfl
+  | cons x xs ih =>
+    intro h
+    have hx := h x (by simp)
+    unfold cut
+    have : ¬ x.len > 65535 := by omega
+    simp only [this, if_false]
+    exact ih (fun m hm => h m (by simp [hm]))
 
 end Exa.Pack
